@@ -136,8 +136,8 @@ class Emitter:
             return f"Optional[{self.expr(a['of'])}]"
         if k == "union":
             parts = [self.expr(m) for m in a["of"]]
-            if a.get("pipe"):
-                return " | ".join(parts)
+            if a.get("pipe") and not (len(parts) >= 2 and parts[0] == parts[1] == "None"):
+                return " | ".join(parts)  # (`None | None` is not an expression Python can evaluate)
             return "Union[" + ", ".join(parts) + "]"
         if k == "tuple_var":
             return f"tuple[{self.expr(a['of'])}, ...]"
